@@ -393,6 +393,7 @@ func runC01History(c *Ctx) {
 
 func runC06(c *Ctx) {
 	defer c06StructuredNames(c)
+	defer c06EmptyNamespaceThroughWebhook(c)
 	n := sizes(c, 4000, 80000)
 	k := AdmitKnobs{FaultPct: 3, SynPct: 70, SubPct: 10, ExemptHeavy: true}
 	extra := c06Oracle(c)
@@ -602,6 +603,7 @@ func c07Oracle(c *Ctx) func(a *AdmitCase, g AdmitOut) {
 // ---------------------------------------------------------------- C08
 
 func runC08(c *Ctx) {
+	defer c08RealNamespaceGetters(c)
 	// end to end: mixed reviews (pods and controllers, with and without subresources, many in flight, one after another on
 	// kept-alive connections) through the webhook handler; warnings and audit annotations must be the library's
 	{
@@ -907,6 +909,7 @@ func c10Sequences(c *Ctx) {
 
 func runC10(c *Ctx) {
 	defer c10Sequences(c)
+	defer c10FaultedUpdates(c)
 	n := sizes(c, 4000, 80000)
 	k := AdmitKnobs{Kind: "pod", FaultPct: 0, SynPct: 50, SubPct: 45}
 	admitSweep(c, n, k, "allowed code warnings audit ann evalCalls metrics", "allowed nEvalCalls", func(a *AdmitCase, g AdmitOut) {
